@@ -335,6 +335,11 @@ impl Cfg {
                 }
                 break;
             }
+            // A node that overwrites the register without reading it ends the
+            // search on this path: what is read behind it is the new value.
+            if next.kill_reg().contains(&item) {
+                continue;
+            }
 
             queue.extend(Self::in_source_order(&next.nexts()));
         }
